@@ -744,6 +744,7 @@ pub fn install_panic_hook(rt: &'static Runtime, verbose: bool) {
         };
         if verbose {
             eprintln!("sim thread panicked at {loc}: {msg}");
+            eprintln!("{}", std::backtrace::Backtrace::force_capture());
         }
         // the runtime mutex is never held while user code runs, so this cannot deadlock
         rt.record_panic(format!("{loc}: {msg}"));
@@ -759,19 +760,19 @@ pub fn pin_to_core(core: usize) {
     }
 }
 
-/// Makes `real` visible at the fixed path `fixed` for this process only (private mount
-/// namespace + bind mount) and returns `fixed`. erg keys its module tables by absolute path
-/// with a non-random hash, so the iteration order of those tables - and with it the sequence of
-/// hook calls - depends on where the project lives: every worker must see its project at the
-/// same path for a seed to mean the same execution on every worker and in a replay.
-/// Must be called before any thread is spawned. Falls back to `real` when the sandbox does not
+/// Makes each `real` directory visible at its fixed path for this process only (private mount
+/// namespace + bind mounts). erg keys its module tables by absolute path with a non-random
+/// hash, so the iteration order of those tables - and with it the sequence of hook calls -
+/// depends on where the project lives: every worker must see its project at the same path
+/// for a seed to mean the same execution on every worker and in a replay.
+/// Must be called before any thread is spawned. Returns false when the sandbox does not
 /// allow it (then replays are exact only from the same directory).
-pub fn mount_at(real: &str, fixed: &str) -> String {
+pub fn mounts(pairs: &[(String, String)]) -> bool {
     use std::ffi::CString;
     let c = |s: &str| CString::new(s).unwrap();
     unsafe {
         if libc::unshare(libc::CLONE_NEWNS) != 0 {
-            return real.to_string();
+            return false;
         }
         let root = c("/");
         let none = c("none");
@@ -783,12 +784,23 @@ pub fn mount_at(real: &str, fixed: &str) -> String {
             std::ptr::null(),
         ) != 0
         {
-            return real.to_string();
+            return false;
         }
-        let (r, f) = (c(real), c(fixed));
-        if libc::mount(r.as_ptr(), f.as_ptr(), std::ptr::null(), libc::MS_BIND, std::ptr::null()) != 0 {
-            return real.to_string();
+        for (real, fixed) in pairs {
+            let (r, f) = (c(real), c(fixed));
+            if libc::mount(r.as_ptr(), f.as_ptr(), std::ptr::null(), libc::MS_BIND, std::ptr::null()) != 0 {
+                return false;
+            }
         }
     }
-    fixed.to_string()
+    true
+}
+
+/// one directory, see [`mounts`]; returns the path to use
+pub fn mount_at(real: &str, fixed: &str) -> String {
+    if mounts(&[(real.to_string(), fixed.to_string())]) {
+        fixed.to_string()
+    } else {
+        real.to_string()
+    }
 }
